@@ -3,7 +3,8 @@ int g_i;            /* witness index into the 16 address bytes */
 #define DA_BYTE(k) ((quint32)(unsigned char)stream->ba->src[__CPROVER_old(stream->pos) + (k)])
 #define DA_COMPLETE (__CPROVER_old(stream->pos) + (int)a_length <= stream->ba->n)
 /* XOR pad: magic cookie (big endian) followed by the transaction id; bytes beyond the id read as 0 (QByteRef) */
-#define DA_XPAD(i) ((i) < 4 ? ((0x2112A442u >> (8 * (3 - (i)))) & 0xffu) : (((i) - 4 < xorId->n) ? (quint32)(unsigned char)xorId->src[xorId->off + (i) - 4] : 0u))
+#define DA_XPAD_OF(xid, i) ((i) < 4 ? ((0x2112A442u >> (8 * (3 - (i)))) & 0xffu) : (((i) - 4 < (xid)->n) ? (quint32)(unsigned char)(xid)->src[(xid)->off + (i) - 4] : 0u))
+#define DA_XPAD(i) DA_XPAD_OF(xorId, i)
 static inline int QDataStream_read_ipv6(QDataStream *s, Q_IPV6ADDR *a, int len) {
   MODEL_LIMIT(len == 16, "readRawData into Q_IPV6ADDR with len != 16"); MODEL_LIMIT(!s->ba->patched && QBA_NOT_OWNED(s->ba), "plain source");
   int av = s->ba->n - s->pos; int k = len < av ? len : av;
@@ -26,6 +27,11 @@ static inline int QDataStream_write_ipv6(QDataStream *s, const Q_IPV6ADDR *a, in
 /* j = offset of the witness position inside the bytes appended by this call (valid when 0 <= j < appended) */
 #define W_J (g_w - __CPROVER_old(stream->wba->n))
 #define W_BYTE ((quint32)(unsigned char)stream->wba->w_val)
+#endif
 #define BE16(v, k) ((((quint32)(v)) >> (8 * (1 - (k)))) & 0xffu)
 #define BE32(v, k) ((((quint32)(v)) >> (8 * (3 - (k)))) & 0xffu)
-#endif
+/* RFC 5389 15.1 / 15.2: byte j of an address attribute (type, length 8|20, 0, family 1|2, port ^ cookie-high, address ^ cookie [^ id]) */
+#define EA_BYTE(j, type, proto, v4, v6c, port, xid) \
+  ((j) < 2 ? BE16(type, j) : (j) < 4 ? BE16((proto) == 0 ? 8 : 20, (j) - 2) : (j) == 4 ? 0u : (j) == 5 ? ((proto) == 0 ? 1u : 2u) : \
+   (j) < 8 ? BE16((quint16)((port) ^ ((xid)->n == 0 ? 0u : 0x2112u)), (j) - 6) : \
+   (proto) == 0 ? BE32((v4) ^ ((xid)->n == 0 ? 0u : 0x2112A442u), (j) - 8) : (quint32)(quint8)((v6c)[(j) - 8] ^ ((xid)->n == 0 ? 0u : DA_XPAD_OF(xid, (j) - 8))))
